@@ -159,6 +159,13 @@ func evalNameArray(node *jparse.NameNode, data reflect.Value, env *environment) 
 			return undefined, err
 		}
 
+		if seq, ok := asSequence(v); ok {
+			// The member is itself an array: splice its results
+			// in. The sequence object is not a result.
+			results.values = append(results.values, seq.values...)
+			continue
+		}
+
 		if v.IsValid() && v.CanInterface() {
 			results.Append(v.Interface())
 		}
